@@ -1523,6 +1523,7 @@ def run(ctx, res):
     from rules import c07_dft
     c07_dft.check_dft(res, facts, ctx.tier)
     c07_dft.check_dft_radix2(res, facts, ctx.tier)
+    c07_dft.check_degree_aware(res, facts, ctx.tier)
     check_parfft(res, facts)
     check_lagrange(res, facts)
     check_bflysib(res, facts)
